@@ -175,6 +175,7 @@ def run(tier, seed, argv):
     rep.bounds = dict(configs=len(jobs), shard_ranks="1..3 (thorough 4)", sharding="dim 0, torch.chunk style incl. ranks without rows, explicit uneven sizes (thorough)", hybrid="replicate 2 (thorough 3) x shard 1..2", steps="T=2")
     rep.assumptions = ["DTensor is the simulator's local-view model (to_local, dim-0 Shard placement); redistribution / FSDP2 hooks are outside the model",
                        "as C01/C06: real arithmetic, recording stubs, lock-step simulator"]
+    rep.validate_standin(6 if tier == "quick" else 24)
     rep.absorb("fully-shard", par.run_jobs(jobs, chunk=4))
     return rep.finish("checks.c08")
 
